@@ -4,9 +4,9 @@ from .. import gen, oracles, tablecheck
 CLAIM = True
 MODULE = "SysLoss.Props.C07"
 THEOREMS = ["SysLoss.C07." + t for t in (
-    "energy_nophase", "energy_phase", "lookup_self_of_nodup", "energies_add_up", "total_eff_le_100", "subs_spec", "total_spec", "average_spec", "domain_step")]
+    "energy_nophase", "energy_phase", "lookup_self_of_nodup", "energies_add_up", "total_eff_le_100", "subs_spec", "total_spec", "average_spec", "domain_step", "domain_table")] + ["SysLoss.domInv_foldl", "SysLoss.C07aux_domain_step"]
 LEVEL_TEXT = ("Theorems (Lean 4): 24 h energy = power x 24 resp. power x 24 x the phase's share; the per-phase energies of a row add up to the energy of its duration-weighted average; each Subsystem row carries its source's Iout and Power and the sum of the losses of exactly the rows attributed to it, with Yes iff one of them warns; System total = sums over the subsystems with efficiency <= 100 when 0 <= Loss <= Power; System average = duration-weighted means; a row's Domain is its own name (Source), the source above the selected input (PMux) or its parent's domain. Tied to the code on every run: Domain, Subsystem / total / average rows and energies re-assembled by the model from the implementation's (v,i) (1e-9) on multi-source systems built in random interleavings, and an oracle that recomputes every aggregate from the component rows and the tree.")
-LEVEL_NOTE = ("Genuine defect found by this check and repaired: Domain carried over from the previously listed row (fix 8389da8). The global statement 'Domain = powering source for every valid topological order' follows from domain_step by induction over the order; that induction is not yet mechanised.")
+LEVEL_NOTE = ("Genuine defect found by this check and repaired: Domain carried over from the previously listed row (fix 8389da8). `domain_table` is the global statement for every valid topological order (induction over the table loop, Proofs/Domain.lean): each Source row is its own domain and every other non-mux row carries the domain of its first parent's row.")
 RULE = ("1-4 sources, a mux joining 0-4 of them at depth 0-2, children added in random interleavings (varies node ids and the "
         "topological order), phases on half of the systems, energy=True; non-trivial = >= 2 sources or phases")
 ASSUMPTIONS = ["aggregates are compared with sums recomputed from the component rows; tolerance = accumulated row tolerances"]
